@@ -18,6 +18,7 @@ class epoch_manager {
 public:
     static void epoch_thread() {
         for (;;) {
+            YAKUSHIMA_VERIF_POINT(EPOCH_LOOP, nullptr);
             sleepMs(YAKUSHIMA_EPOCH_TIME);
             for (;;) {
                 Epoch cur_epoch = epoch_management::get_epoch();
@@ -38,6 +39,7 @@ public:
                  */
                 if (kEpochThreadEnd.load(std::memory_order_acquire)) break;
             }
+            YAKUSHIMA_VERIF_POINT(EPOCH_ADVANCE, nullptr);
             epoch_management::epoch_inc();
 
             /**
@@ -65,6 +67,7 @@ public:
 
     static void gc_thread() {
         for (;;) {
+            YAKUSHIMA_VERIF_POINT(GC_LOOP, nullptr);
             sleepMs(YAKUSHIMA_EPOCH_TIME);
             thread_info_table::gc();
             if (kGCThreadEnd.load(std::memory_order_acquire)) { break; }
